@@ -16,9 +16,15 @@
    transaction hard-invalid. The remaining verdicts are facts supplied with each
    operation, computed by the harness at the node's current head with the
    transaction package directly (transaction validation is C09/C11):
-     v_wf      VerifySingleTxnHardConstraints (VerifyBlockTxnConstraints for block
-               transactions) holds given the outputs named by the inputs — i.e.
-               everything hard except "the inputs are unspent"
+     v_wf      transaction.VerifySingleTxnHardConstraints (the hard rules for a
+               transaction OUTSIDE a block: includes "output hours do not overflow"
+               and "no input's coin hours overflow at the head time") holds given the
+               outputs named by the inputs — everything hard except "the inputs are
+               unspent". Used by injection, Refresh and RemoveInvalid.
+     v_blk     transaction.VerifyBlockTxnConstraints (the weaker hard rules for a
+               transaction INSIDE a block) holds, same proviso. Used by ExecBlock
+               only. Both bits are supplied with every verdict so that a checker
+               swapped for the other rule set is visible whenever they differ.
      v_soft    VerifySingleTxnSoftConstraints holds under the parameter set the
                operation uses (UnconfirmedVerifyTxn; params.UserVerifyTxn for
                user injection). Both depend on the head time (coin hours accrue).
@@ -30,7 +36,7 @@ From Sky Require Import Base.Uint.
 Open Scope Z_scope.
 
 Record txn : Type := mkT { tid : Z; tins : list Z; touts : list Z }.
-Record verdict : Type := mkV { v_wf : bool; v_soft : bool; v_unspent : bool }.
+Record verdict : Type := mkV { v_wf : bool; v_blk : bool; v_soft : bool; v_unspent : bool }.
 
 Inductive op : Type :=
 | InjectForeign (t : txn) (v : verdict)
@@ -55,6 +61,8 @@ Definition mem (i : Z) (l : list Z) : bool := existsb (Z.eqb i) l.
 Definition inputs_unspent (U : list Z) (t : txn) : bool := forallb (fun i => mem i U) (tins t).
 (* hard constraints = inputs exist in the unspent set (Unspent().GetArray) + the rest *)
 Definition hard_ok (U : list Z) (t : txn) (v : verdict) : bool := inputs_unspent U t && v_wf v.
+(* the hard rules for a transaction inside a block *)
+Definition block_hard_ok (U : list Z) (t : txn) (v : verdict) : bool := inputs_unspent U t && v_blk v.
 
 Definition key (e : entry) : Z := tid (fst e).
 Definition keys (p : list entry) : list Z := map key p.
@@ -104,7 +112,7 @@ Fixpoint disjoint_ins (seen : list Z) (txs : list (txn * verdict)) : bool :=
   end.
 Definition block_ok (U : list Z) (hdr_ok : bool) (txs : list (txn * verdict)) : bool :=
   hdr_ok && negb (match txs with [] => true | _ => false end)
-  && forallb (fun tv => hard_ok U (fst tv) (snd tv)) txs
+  && forallb (fun tv => block_hard_ok U (fst tv) (snd tv)) txs
   && disjoint_ins [] txs.
 Definition exec_block (s : state) (hdr_ok : bool) (txs : list (txn * verdict)) : state * out :=
   if block_ok (unspent s) hdr_ok txs then
